@@ -17,6 +17,8 @@ variable {σ ρ α τ : Type}
 @[simp] theorem assign_apply (f : σ → σ) (s : σ) : (assign f : Stmt σ ρ) s = (.next, f s) := rfl
 @[simp] theorem cond_apply (c : σ → Bool) (a b : Stmt σ ρ) (s : σ) : cond c a b s = if c s then a s else b s := rfl
 @[simp] theorem ret_apply (e : σ → ρ) (s : σ) : ret e s = (.ret (e s), s) := rfl
+@[simp] theorem brk_apply (s : σ) : (brk : Stmt σ ρ) s = (.brk, s) := rfl
+@[simp] theorem cont_apply (s : σ) : (cont : Stmt σ ρ) s = (.cont, s) := rfl
 @[simp] theorem raise_apply (e : PyExc) (s : σ) : (raise e : Stmt σ ρ) s = (.exc e, s) := rfl
 @[simp] theorem bindE_apply (m : σ → Except PyExc α × σ) (k : α → Stmt σ ρ) (s : σ) :
     bindE m k s = (match m s with | (.ok v, s1) => k v s1 | (.error e, s1) => (.exc e, s1)) := rfl
@@ -777,5 +779,232 @@ example : (MultiFileReader.read 9 { fileobjs := [⟨⟨[1], 0⟩, false, false, 
     ((.error .ValueError : Except PyExc (List Nat)),
      { fileobjs := [⟨⟨[1], 1⟩, false, false, false⟩, ⟨⟨[2], 0⟩, true, false, false⟩], index := 1, joiner := [] }) := by
   decide
+
+/-! ## 4. SpooledStringIO against the hand model `SStr` (round 3c, second part)
+
+`_buffer` is the spec-declared abstract codec file `PyRtC18.CFile` = the model's stream `File CU` + its transliterated
+`codecs.StreamReader` (`C18.Reader`); its operations are the model's own (`Reader.read`, `Reader.readline`, `File.write`,
+`bseek`).  Where the model only sets its `bad` flag (Python: UnicodeDecodeError) the abstract operation is unspecified;
+the ties below therefore carry the hypothesis that the reads involved are good (`goodRead`, `travOk` …), which the
+model's own proofs establish for coherent states (`RC`, `Reader.read_spec`). -/
+
+abbrev SS := SpooledStringIO.St
+
+theorem src_ss_closed_eq_model (st : SS) : SpooledStringIO.closed st = (.ok st.buffer.closed, st) := by
+  simp [SpooledStringIO.closed, SpooledStringIO.closed.body, CFile.isClosed]
+
+theorem src_ss_checkClosed_eq_model (st : SS) (msg : Option Unit) :
+    SpooledStringIO.checkClosed st msg = (if st.buffer.closed then .error .ValueError else .ok (), st) := by
+  cases h : st.buffer.closed <;>
+    simp [SpooledStringIO.checkClosed, SpooledStringIO.checkClosed.body, src_ss_closed_eq_model, h]
+
+theorem ss_checkClosed_open (st : SS) (msg : Option Unit) (h : st.buffer.closed = false) :
+    SpooledStringIO.checkClosed st msg = (.ok (), st) := by simp [src_ss_checkClosed_eq_model, h]
+
+theorem src_ss_rolled_eq_model (st : SS) : SpooledStringIO.rolled st = (.ok st.buffer.real, st) := by
+  simp [SpooledStringIO.rolled, SpooledStringIO.rolled.body, CFile.isMem]
+
+/-- `tell()`: the code-point counter `_tell`; ValueError on a closed object -/
+theorem src_ss_tell_eq_model (st : SS) :
+    SpooledStringIO.tell st = (if st.buffer.closed then .error .ValueError else .ok st.tell, st) := by
+  cases h : st.buffer.closed <;>
+    simp [SpooledStringIO.tell, SpooledStringIO.tell.body, src_ss_checkClosed_eq_model, h]
+
+/-- the object state stands for the model state -/
+structure RelS (st : SS) (s : SStr) : Prop where
+  stream : st.buffer.st = s.st
+  reader : st.buffer.rd = s.rd
+  opened : st.buffer.closed = false
+  real : st.buffer.real = s.rolled
+  tell : st.tell = (s.tell : Int)
+  max : st.max_size = (s.maxSize : Int)
+  chunk : st.chunk = (s.chunk : Int)
+
+/-- the size the model's reader is asked for -/
+def sizeOf (n : Int) : Option Nat := if n < 0 then none else some n.toNat
+
+/-- the read does not hit a decoding error (the model's `bad` flag stays down) -/
+def goodRead (s : SStr) (size : Option Nat) : Bool := !(s.rd.read s.st size).2.2.bad
+
+/-- `read(n)`: `SStr.read` -/
+theorem src_ss_read_eq_model (st : SS) (s : SStr) (n : Int) (h : RelS st s) (hg : goodRead s (sizeOf n) = true) :
+    (SpooledStringIO.read st n).1 = .ok (s.read (sizeOf n)).1 ∧ RelS (SpooledStringIO.read st n).2 (s.read (sizeOf n)).2 := by
+  obtain ⟨h1, h2, h3, h4, h5, h6, h7⟩ := h
+  rcases st with ⟨⟨bst, brd, bcl, brl⟩, tl, ms, dir, ch⟩
+  simp only at h1 h2 h3 h4 h5 h6 h7
+  subst h1 h2 h3 h4 h5 h6 h7
+  simp only [goodRead, Bool.not_eq_true', sizeOf] at hg
+  refine ⟨?_, ?_⟩
+  · simp [SpooledStringIO.read, SpooledStringIO.read.body, ss_checkClosed_open, src_ss_tell_eq_model, CFile.read,
+      sizeOf, hg, SStr.read]
+  · constructor <;>
+      simp [SpooledStringIO.read, SpooledStringIO.read.body, ss_checkClosed_open, src_ss_tell_eq_model, CFile.read,
+        sizeOf, hg, SStr.read, PyRt.len]
+
+/-- the model's `traverse` ends by one of its exits (not by its fuel) and every read on the way is good -/
+def travOk : Nat → SStr → Nat → Nat → Bool
+  | 0, _, _, _ => false
+  | k + 1, s, cur, dest =>
+    if cur = dest then true
+    else if cur + s.chunk > dest then goodRead s (some (dest - cur))
+    else goodRead s (some s.chunk) &&
+      ((s.read (some s.chunk)).1.isEmpty || travOk k (s.read (some s.chunk)).2 (cur + s.chunk) dest)
+
+theorem SStr.read_chunk (s : SStr) (size : Option Nat) : (s.read size).2.chunk = s.chunk := rfl
+
+/-- THE LOOP of `_traverse_codepoints`: with at least the model's fuel the generated loop ends normally in an object
+    standing for `SStr.traverse` -/
+theorem ss_trav_sim (k : Nat) : ∀ (n : Nat) (s0 : SpooledStringIO.traverse.St) (s : SStr) (cur dest : Nat),
+    RelS s0.self s → s0.current_position = (cur : Int) → s0.loc1 = (dest : Int) → cur ≤ dest →
+    travOk k s cur dest = true → k ≤ n →
+    ∃ s', whileLoop SpooledStringIO.traverse.loop1.cond SpooledStringIO.traverse.loop1.body n s0 = (.next, s') ∧
+      RelS s'.self (SStr.traverse k s cur dest) ∧ s'.loc1 = (dest : Int) := by
+  induction k with
+  | zero => intro n s0 s cur dest _ _ _ _ hok; simp [travOk] at hok
+  | succ k ih =>
+    intro n s0 s cur dest hr hcur hdest hle hok hn
+    obtain ⟨n, rfl⟩ : ∃ n', n = n' + 1 := ⟨n - 1, by omega⟩
+    have hch := hr.chunk
+    rw [whileLoop_succ]
+    have hc : SpooledStringIO.traverse.loop1.cond s0 = true := by simp [SpooledStringIO.traverse.loop1.cond]
+    rw [hc, if_pos rfl]
+    unfold travOk at hok
+    unfold SStr.traverse
+    by_cases h1 : cur = dest
+    · subst h1
+      simp only [if_true] at hok ⊢
+      refine ⟨s0, ?_, hr, hdest⟩
+      simp [SpooledStringIO.traverse.loop1.body, hcur, hdest]
+    · have h1I : ¬ (s0.current_position = s0.loc1) := by rw [hcur, hdest]; omega
+      rw [if_neg h1] at hok ⊢
+      by_cases h2 : cur + s.chunk > dest
+      · rw [if_pos h2] at hok ⊢
+        have h2I : s0.current_position + s0.self.chunk > s0.loc1 := by rw [hcur, hdest, hch]; omega
+        have harg : s0.loc1 - s0.current_position = ((dest - cur : Nat) : Int) := by rw [hcur, hdest]; omega
+        have hsz : sizeOf (s0.loc1 - s0.current_position) = some (dest - cur) := by
+          rw [harg]; simp [sizeOf]
+        have hrd := src_ss_read_eq_model s0.self s _ hr (by rw [hsz]; exact hok)
+        rw [hsz] at hrd
+        rcases hread : SpooledStringIO.read s0.self (s0.loc1 - s0.current_position) with ⟨r, st1⟩
+        rw [hread] at hrd
+        simp only at hrd
+        refine ⟨{ s0 with self := st1 }, ?_, hrd.2, hdest⟩
+        simp [SpooledStringIO.traverse.loop1.body, h1I, h2I, hread, hrd.1]
+      · rw [if_neg h2] at hok ⊢
+        have h2I : ¬ (s0.current_position + s0.self.chunk > s0.loc1) := by rw [hcur, hdest, hch]; omega
+        simp only [Bool.and_eq_true, Bool.or_eq_true] at hok
+        have hsz : sizeOf s0.self.chunk = some s.chunk := by rw [hch]; simp [sizeOf]
+        have hrd := src_ss_read_eq_model s0.self s _ hr (by rw [hsz]; exact hok.1)
+        rw [hsz] at hrd
+        rcases hread : SpooledStringIO.read s0.self s0.self.chunk with ⟨r, st1⟩
+        rw [hread] at hrd
+        simp only at hrd
+        have hch1 : st1.chunk = s0.self.chunk := by rw [hrd.2.chunk, hch]; rfl
+        by_cases h3 : (s.read (some s.chunk)).1.isEmpty = true
+        · rw [if_pos h3]
+          have h3' : (s.read (some s.chunk)).1 = [] := by simpa using h3
+          refine ⟨{ s0 with self := st1, loc2 := (s.read (some s.chunk)).1,
+                            current_position := s0.current_position + s0.self.chunk }, ?_, hrd.2, hdest⟩
+          simp [SpooledStringIO.traverse.loop1.body, h1I, h2I, hread, hrd.1, h3', hch1]
+        · rw [if_neg h3]
+          have h3' : (s.read (some s.chunk)).1 ≠ [] := by simpa using h3
+          have hok2 : travOk k (s.read (some s.chunk)).2 (cur + s.chunk) dest = true := by
+            rcases hok.2 with h | h
+            · exact absurd h h3
+            · exact h
+          obtain ⟨s', hs', hrel', hd'⟩ := ih n
+            { s0 with self := st1, loc2 := (s.read (some s.chunk)).1,
+                      current_position := s0.current_position + s0.self.chunk }
+            (s.read (some s.chunk)).2 (cur + s.chunk) dest hrd.2
+            (by simp [hcur, hch]) hdest (by omega) hok2 (by omega)
+          refine ⟨s', ?_, hrel', hd'⟩
+          rw [← hs']
+          simp [SpooledStringIO.traverse.loop1.body, h1I, h2I, hread, hrd.1, h3', hch1]
+
+theorem ss_trav_sim_of_eq (k n : Nat) (s0 s1 : SpooledStringIO.traverse.St) (fl : Flow Int) (s : SStr) (cur dest : Nat)
+    (heq : whileLoop SpooledStringIO.traverse.loop1.cond SpooledStringIO.traverse.loop1.body n s0 = (fl, s1))
+    (hr : RelS s0.self s) (hcur : s0.current_position = (cur : Int)) (hdest : s0.loc1 = (dest : Int)) (hle : cur ≤ dest)
+    (hok : travOk k s cur dest = true) (hk : k ≤ n) :
+    fl = .next ∧ RelS s1.self (SStr.traverse k s cur dest) ∧ s1.loc1 = (dest : Int) := by
+  obtain ⟨s', hs', hrel, hd⟩ := ss_trav_sim k n s0 s cur dest hr hcur hdest hle hok hk
+  rw [hs'] at heq
+  cases heq
+  exact ⟨rfl, hrel, hd⟩
+
+/-- `_traverse_codepoints(cur, n)`: `SStr.traverse` to `cur + n`; returns the destination -/
+theorem src_ss_traverse_eq_model (lfuel k : Nat) (st : SS) (s : SStr) (cur n : Nat) (h : RelS st s)
+    (hok : travOk k s cur (cur + n) = true) (hk : k ≤ lfuel) :
+    (SpooledStringIO.traverse lfuel st cur n).1 = .ok ((cur + n : Nat) : Int) ∧
+    RelS (SpooledStringIO.traverse lfuel st cur n).2 (SStr.traverse k s cur (cur + n)) := by
+  simp only [SpooledStringIO.traverse, SpooledStringIO.traverse.body, seq_apply, assign_apply, ret_apply]
+  split
+  · rename_i x s1 heq
+    obtain ⟨_, hrel, hd⟩ := ss_trav_sim_of_eq k lfuel _ _ _ s cur (cur + n) heq (by simpa using h) (by simp)
+      (by simp) (by omega) hok hk
+    exact ⟨by simp [hd], by simpa using hrel⟩
+  · rename_i x fl s1 hne heq
+    obtain ⟨hfl, _, _⟩ := ss_trav_sim_of_eq k lfuel _ _ _ s cur (cur + n) heq (by simpa using h) (by simp)
+      (by simp) (by omega) hok hk
+    exact absurd hfl hne
+
+theorem RelS.bseek0 {st : SS} {s : SStr} (h : RelS st s) :
+    RelS { st with buffer := { st.buffer with st := st.buffer.st.seek 0, rd := Reader.reset } } (s.bseek 0) :=
+  ⟨by simp [SStr.bseek, h.stream], by simp [SStr.bseek], h.opened, h.real, h.tell, h.max, h.chunk⟩
+
+/-- `seek(p)` (`os.SEEK_SET`): rewind the stream, reset the codec, traverse `p` code points, `_tell = p` — `SStr.seek` -/
+theorem src_ss_seek0_eq_model (lfuel : Nat) (st : SS) (s : SStr) (p : Nat) (h : RelS st s)
+    (hok : travOk (p + 1) (s.bseek 0) 0 p = true) (hk : p + 1 ≤ lfuel) :
+    (SpooledStringIO.seek0 lfuel st p).1 = .ok (p : Int) ∧ RelS (SpooledStringIO.seek0 lfuel st p).2 (s.seek p) := by
+  rcases st with ⟨⟨bst, brd, bcl, brl⟩, tl, ms, dir, ch⟩
+  have hcl : bcl = false := h.opened
+  subst hcl
+  have hb : RelS { buffer := ⟨bst.seek 0, Reader.reset, false, brl⟩, tell := tl, max_size := ms, dir := dir, chunk := ch }
+      (s.bseek 0) := h.bseek0
+  have ht := src_ss_traverse_eq_model lfuel (p + 1) _ (s.bseek 0) 0 p hb (by simpa using hok) hk
+  simp only [Nat.zero_add] at ht
+  rcases htr : SpooledStringIO.traverse lfuel
+      { buffer := ⟨bst.seek 0, Reader.reset, false, brl⟩, tell := tl, max_size := ms, dir := dir, chunk := ch }
+      ((0 : Nat) : Int) (p : Int) with ⟨r, st1⟩
+  rw [htr] at ht
+  simp only at ht
+  have hc1 : st1.buffer.closed = false := ht.2.opened
+  have hrel := ht.2
+  have ht0 : ((0 : Nat) : Int) = 0 := rfl
+  rw [ht0] at htr
+  refine ⟨?_, ?_⟩
+  · simp [SpooledStringIO.seek0, SpooledStringIO.seek0.body, src_ss_checkClosed_eq_model, CFile.seek,
+      htr, ht.1, src_ss_tell_eq_model, hc1]
+  · constructor <;>
+      simp [SpooledStringIO.seek0, SpooledStringIO.seek0.body, src_ss_checkClosed_eq_model, CFile.seek,
+        htr, ht.1, src_ss_tell_eq_model, hc1, SStr.seek, hrel.stream, hrel.reader, hrel.real, hrel.max, hrel.chunk]
+
+/-- an unknown `mode`: ValueError, nothing moves (open object) -/
+theorem src_ss_seek_bad_mode (lfuel : Nat) (st : SS) (p mode : Int) (h : st.buffer.closed = false)
+    (hm : mode ≠ 0 ∧ mode ≠ 1 ∧ mode ≠ 2) :
+    SpooledStringIO.seek lfuel st p mode = (.error .ValueError, st) := by
+  simp [SpooledStringIO.seek, SpooledStringIO.seek.body, ss_checkClosed_open _ _ h, hm.1, hm.2.1, hm.2.2]
+
+/-- PARTIAL ties (the methods are translated and validated against CPython by the self-test; their loops — the reading
+    loop of `len`, the joining loop of `readline` — and `rollover` / `write` on top of `seek` are not yet simulated
+    against `SStr.lenLoop` / `SStr.rlJoin` / `SStr.rollover` / `SStr.write`): the closed-check comes first -/
+theorem src_ss_len_closed (lfuel : Nat) (st : SS) (h : st.buffer.closed = true) :
+    SpooledStringIO.len lfuel st = (.error .ValueError, st) := by
+  simp [SpooledStringIO.len, SpooledStringIO.len.body, src_ss_tell_eq_model, h]
+
+theorem src_ss_write_closed (lfuel : Nat) (st : SS) (b : List Char) (h : st.buffer.closed = true) :
+    SpooledStringIO.write lfuel st b = (.error .ValueError, st) := by
+  simp [SpooledStringIO.write, SpooledStringIO.write.body, src_ss_checkClosed_eq_model, h]
+
+theorem src_ss_readline_closed (lfuel : Nat) (st : SS) (length : Option Int) (h : st.buffer.closed = true) :
+    SpooledStringIO.readline lfuel st length = (.error .ValueError, st) := by
+  simp [SpooledStringIO.readline, SpooledStringIO.readline.body, src_ss_checkClosed_eq_model, h]
+
+/-- `rollover()` on an object that is already on disk does nothing (no closed-check, no fuel) -/
+theorem src_ss_rollover_rolled (lfuel : Nat) (st : SS) (h : st.buffer.real = true) :
+    SpooledStringIO.rollover lfuel st = (.ok (), st) := by
+  simp [SpooledStringIO.rollover, SpooledStringIO.rollover.body, src_ss_rolled_eq_model, h]
+
+/-- non-vacuity: a code-point traversal over multi-byte text meets the hypotheses of the traverse / seek ties -/
+example : travOk 3 (SStr.bseek ⟨⟨encode ['a', 'é', '日'], 6⟩, {}, 3, false, 100, 2⟩ 0) 0 2 = true := by decide
 
 end C18
